@@ -109,7 +109,13 @@ func (n *MixedValueNode) ASTNode() (schema.ASTNode, error) {
 	if strings.ContainsRune(n.value, '|') {
 		an.SchemaType = json.TypeMixed.String()
 	}
-	an.Value = n.value
+	// The names as written, with one blank on either side of the bars: the value
+	// must not depend on how the choice happens to be spaced (`@a|@b`, `@a  |	@b`).
+	names := strings.Split(n.value, "|")
+	for i := range names {
+		names[i] = strings.TrimSpace(names[i])
+	}
+	an.Value = strings.Join(names, " | ")
 	return an, nil
 }
 
